@@ -2074,10 +2074,12 @@ struct Value {
             SizeT                str_len = 0;
             SizeT                grouped_key_index;
 
-            groupedValue.reset();
-            groupedValue.setTypeToObject();
+            // Group into a local value: the target can be this array (or contain it), and a failure
+            // half-way must not leave the groups collected so far in it.
+            Value grouped;
+            grouped.setTypeToObject();
 
-            if (array_.IsNotEmpty()) {
+            {
                 const Value *end = array_.End();
 
                 while (item_ != end) {
@@ -2100,6 +2102,7 @@ struct Value {
                                         str     = stream.First();
                                         str_len = stream.Length();
                                     } else {
+                                        groupedValue = Value{ValueType::Object}; // No partial result.
                                         return false;
                                     }
                                 }
@@ -2112,15 +2115,17 @@ struct Value {
                             ++obj_item;
                         }
 
-                        groupedValue.object_.Get(str, str_len) += Memory::Move(new_sub_obj);
+                        grouped.object_.Get(str, str_len) += Memory::Move(new_sub_obj);
 
                         ++item_;
                         continue;
                     }
 
+                    groupedValue = Value{ValueType::Object}; // No partial result.
                     return false;
                 }
 
+                groupedValue = Memory::Move(grouped);
                 return true;
             }
         } else if (type == ValueType::ValuePtr) {
